@@ -464,4 +464,76 @@ def newBlock (cfg : Cfg) (now : Nat) (s : State) (h : Nat) : Acc :=
     let (r, a) := submitCore cfg now acc.st e.2.1 e.2.2
     ⟨a.st, acc.relay ++ a.relay, acc.replayed ++ [(e.2.2, r)] ++ a.replayed⟩) ⟨s0, [], []⟩
 
+/-! ### trusted and maintenance entry points of the builder / graph store (round 5)
+
+`Builder.AddEdge` (locally trusted callers), `DeleteChannelEdges(strict, markZombie)` +
+`PruneGraphNodes`, and `Builder.pruneZombieChans` (the graph-prune ticker). -/
+
+/-- `Builder.AddEdge`: ignored for a live or zombie channel, otherwise the edge and shell nodes are
+    stored as given (the caller is trusted, like for `UpdateEdge`). -/
+def addEdgeDirect (s : State) (a : ChanAnn) (cap : Nat) : State × EdgeRes :=
+  if s.g.known a.scid then (s, .ignored) else (s.addChan a cap, .ok)
+
+/-- `makeZombiePubkeys` (graph/db/kv_store.go:3331, shared by the SQL store) **as written**: the
+    arguments are the last-update times of the two policies (if present).  Its doc comment says that
+    in the last case "only an update from edge2 can resurrect the channel"; the code returns `node1`
+    in the second slot (see `strict_zombie_records_wrong_key`). -/
+def makeZombiePubkeys (n1 n2 : Key) (e1 e2 : Option Nat) : Key × Key :=
+  match e1, e2 with
+  | none, none => (n1, n2)
+  | none, some _ => (n1, 0)
+  | some a, some b => if a < b then (n1, 0) else (0, n1)
+  | some _, none => (0, n1)
+
+/-- what the doc comment of `makeZombiePubkeys` specifies -/
+def makeZombiePubkeysSpec (n1 n2 : Key) (e1 e2 : Option Nat) : Key × Key :=
+  match e1, e2 with
+  | none, none => (n1, n2)
+  | none, some _ => (n1, 0)
+  | some a, some b => if a < b then (n1, 0) else (0, n2)
+  | some _, none => (0, n2)
+
+/-- `PruneGraphNodes`: nodes without any channel (except our own) are removed. -/
+def Graph.pruneNodes (self : Key) (g : Graph) : Graph :=
+  { g with nodes := g.nodes.filter (fun kn => kn.1 == self || endpointOf g.chans kn.1) }
+
+/-- `DeleteChannelEdges(strict, markZombie = true, c)`: the channel and its policies are deleted and
+    the zombie index records who may resurrect it. -/
+def Graph.delZombie (strict : Bool) (g : Graph) (c : Scid) : Graph :=
+  match lookup c g.chans with
+  | none => g
+  | some ci =>
+    let e1 := (lookup (c, 0) g.pols).map (·.ts)
+    let e2 := (lookup (c, 1) g.pols).map (·.ts)
+    let ks := if strict then makeZombiePubkeys ci.n1 ci.n2 e1 e2 else (ci.n1, ci.n2)
+    { g with chans := erase c g.chans, pols := erase (c, 1) (erase (c, 0) g.pols),
+             zombies := upsert c ks g.zombies }
+
+/-- `isPolicyZombie` (`now` in nanoseconds): no policy, or not updated for the prune expiry. -/
+def polZombie (cfg : Cfg) (now : Nat) : Option Policy → Bool
+  | none => true
+  | some p => decide (p.ts * nsPerSec + cfg.expiry * nsPerSec ≤ now)
+
+/-- is the channel returned by `ChanUpdatesInHorizon(0, now - expiry)` (end exclusive, seconds) -/
+def inPruneHorizon (cfg : Cfg) (now : Nat) (g : Graph) (c : Scid) : Bool :=
+  let endSec := (now - cfg.expiry * nsPerSec) / nsPerSec
+  [0, 1].any (fun d => match lookup (c, d) g.pols with
+    | some p => decide (p.ts < endSec)
+    | none => false)
+
+def isZombieChan (cfg : Cfg) (strict : Bool) (now : Nat) (g : Graph) (c : Scid) : Bool :=
+  let z1 := polZombie cfg now (lookup (c, 0) g.pols)
+  let z2 := polZombie cfg now (lookup (c, 1) g.pols)
+  if strict then z1 || z2 else z1 && z2
+
+/-- `Builder.pruneZombieChans` (without AssumeChannelValid): channels of other nodes that have an
+    update older than the prune expiry and are zombies by the (strict / non-strict) rule are deleted
+    and marked; if anything was deleted unconnected nodes are collected. -/
+def zombiePrune (cfg : Cfg) (strict : Bool) (now : Nat) (g : Graph) : Graph :=
+  let victims := g.chans.filter (fun ch =>
+    ch.2.n1 != cfg.self && ch.2.n2 != cfg.self && inPruneHorizon cfg now g ch.1 &&
+    isZombieChan cfg strict now g ch.1)
+  if victims.isEmpty then g
+  else (victims.foldl (fun g ch => g.delZombie strict ch.1) g).pruneNodes cfg.self
+
 end LndModel.C20
